@@ -1,7 +1,7 @@
 (** C17 — lemmas (see Property.v for the statements) *)
 From Coq Require Import String.
 From Coq Require Import List NArith ZArith Arith Bool Lia ZifyBool ZifyN ZifyNat.
-From Whad Require Import Lib.Bytes Lib.Xor Lib.Aes Lib.Ccm C17.Model.
+From Whad Require Import Lib.Bytes Lib.Xor Lib.Aes Lib.Ccm C17.Model C17.CcmStar.
 Import ListNotations.
 Ltac Zify.zify_post_hook ::= Z.to_euclidean_division_equations.
 Local Open Scope N_scope.
@@ -31,6 +31,15 @@ Qed.
 Lemma raw_base_split f : raw_base f = hdr_raw f ++ f_data f ++ f_mic f.
 Proof. unfold raw_base, hdr_raw, sec_raw. rewrite !app_assoc. reflexivity. Qed.
 
+Lemma gen_auth_mic_only sp f : sp_enc sp = false -> gen_auth sp f = hdr_raw f ++ f_data f.
+Proof.
+  intros H. unfold gen_auth. rewrite H, raw_base_split.
+  rewrite app_assoc, app_length.
+  replace (length (hdr_raw f ++ f_data f) + length (f_mic f) - length (f_mic f))%nat
+    with (length (hdr_raw f ++ f_data f)) by lia.
+  apply firstn_length_app.
+Qed.
+
 Lemma gen_auth_enc sp f : sp_enc sp = true -> gen_auth sp f = hdr_raw f.
 Proof.
   intros H. unfold gen_auth. rewrite H, raw_base_split.
@@ -41,11 +50,22 @@ Proof.
 Qed.
 
 
-Lemma gen_nonce_src f : length (f_src f) = 8%nat -> gen_nonce f = nonce_of f.
+Lemma gen_nonce_src f : f_ext f = true -> length (f_src f) = 8%nat -> gen_nonce f = nonce_of f.
 Proof.
-  intros H. unfold gen_nonce, nonce_of. f_equal.
-  unfold slice, sec_raw, sec_fixed, le32. cbn [app skipn Nat.sub].
+  intros He H. unfold gen_nonce, nonce_of. f_equal.
+  unfold slice, sec_raw, sec_fixed, le32. rewrite He. cbn [app skipn Nat.sub].
   rewrite <- !app_assoc. rewrite <- H. apply firstn_length_app.
+Qed.
+
+(** WITHOUT the extended-nonce flag the "source" part of the nonce is whatever follows the
+    frame counter: key sequence number (if any), then payload and MIC bytes *)
+Lemma gen_nonce_no_ext f : f_ext f = false ->
+  gen_nonce f = firstn 8 ((if f_kt f =? 1 then [f_kseq f] else []) ++ f_data f ++ f_mic f)
+                ++ le32 (f_fc f) ++ [ctrl_byte f].
+Proof.
+  intros He. unfold gen_nonce. f_equal.
+  unfold slice, sec_raw, sec_fixed, le32. rewrite He. cbn [app skipn Nat.sub].
+  rewrite <- ?app_assoc. reflexivity.
 Qed.
 
 Lemma nonce_of_length f : length (f_src f) = 8%nat -> length (nonce_of f) = 13%nat.
@@ -69,6 +89,38 @@ Qed.
 Lemma patch_src f : f_src (patch f) = f_src f.
 Proof. unfold patch, check_security_level. destruct (f_lvl f =? 0); reflexivity. Qed.
 
+Lemma patch_ext f : f_ext (patch f) = f_ext f.
+Proof. unfold patch, check_security_level. destruct (f_lvl f =? 0); reflexivity. Qed.
+
+(** AES.new accepts the nonce (7..13 bytes) *)
+Definition nonce_ok (f : frame) : Prop := (7 <= length (gen_nonce (patch f)))%nat.
+
+Lemma nonce_ext f : f_ext f = true -> length (f_src f) = 8%nat ->
+  gen_nonce (patch f) = nonce_of (patch f) /\ length (gen_nonce (patch f)) = 13%nat.
+Proof.
+  intros He Hs.
+  assert (H : gen_nonce (patch f) = nonce_of (patch f))
+    by (apply gen_nonce_src; [rewrite patch_ext|rewrite patch_src]; assumption).
+  split; [exact H|]. rewrite H. apply nonce_of_length. rewrite patch_src. exact Hs.
+Qed.
+
+Lemma nonce_ok_ext f : f_ext f = true -> length (f_src f) = 8%nat -> nonce_ok f /\ Lf f = 2%nat.
+Proof.
+  intros He Hs. destruct (nonce_ext f He Hs) as [_ Hl]. unfold nonce_ok, Lf. fold (patch f).
+  rewrite Hl. split; [lia|reflexivity].
+Qed.
+
+Lemma ltb7 n : (7 <= n)%nat -> Nat.ltb n 7 = false.
+Proof. intros H. apply Nat.ltb_ge. exact H. Qed.
+
+Lemma mic_scope_params f : mic_scope (f_lvl f) ->
+  sp_enc (params f) = false /\ (exists m, sp_M (params f) = S m) /\ (sp_M (params f) <= 16)%nat
+  /\ sp_patched (params f) = false /\ patch f = f /\ sp_M (params f) = level_M (f_lvl f).
+Proof.
+  unfold params, patch, check_security_level.
+  intros [H|[H|H]]; rewrite H; cbn; repeat split; eauto; lia.
+Qed.
+
 Section Crypt.
   Variable E : bytes -> bytes -> bytes.
   Hypothesis E_length : forall k b, length (E k b) = 16%nat.
@@ -88,70 +140,72 @@ Section Crypt.
     - rewrite andb_false_r. reflexivity.
   Qed.
 
-  Lemma encrypt_eq key f : in_scope (f_lvl f) ->
+  Lemma encrypt_eq key f : in_scope (f_lvl f) -> nonce_ok f ->
     encrypt E key f =
     Ok (restore (params f)
-          (set_mic (ccm_tag E (sp_M (params f)) 2 key (gen_nonce (patch f)) (hdr_raw (patch f)) (enc_pt f))
-             (set_data (ccm_keystream_xor E 2 key (gen_nonce (patch f)) (enc_pt f)) (patch f)))).
+          (set_mic (ccm_tag E (sp_M (params f)) (Lf f) key (gen_nonce (patch f)) (hdr_raw (patch f)) (enc_pt f))
+             (set_data (ccm_keystream_xor E (Lf f) key (gen_nonce (patch f)) (enc_pt f)) (patch f)))).
   Proof.
-    intros Hs. destruct (scope_params f Hs) as (Henc & [m Hm] & _).
+    intros Hs Hn. destruct (scope_params f Hs) as (Henc & [m Hm] & _).
     unfold encrypt, encrypt_with. rewrite csl_eq. rewrite (gen_auth_enc _ _ Henc).
-    unfold enc_pt. rewrite Hm. unfold ccm_encrypt. reflexivity.
+    unfold enc_pt. rewrite Hm, (ltb7 _ Hn), Henc. cbn [orb]. unfold ccm_encrypt. reflexivity.
   Qed.
 
-  Lemma decrypt_eq key f : in_scope (f_lvl f) ->
+  Lemma decrypt_eq key f : in_scope (f_lvl f) -> nonce_ok f ->
     decrypt E key f =
-    match ccm_decrypt E (sp_M (params f)) 2 key (gen_nonce (patch f)) (hdr_raw (patch f)) (recv_ct f) (recv_mic f) with
+    match ccm_decrypt E (sp_M (params f)) (Lf f) key (gen_nonce (patch f)) (hdr_raw (patch f)) (recv_ct f) (recv_mic f) with
     | Some pt => Ok (restore (params f)
                        (set_mic (generate_mic E gen_auth (params f) key (gen_nonce (patch f)) (set_data pt (patch f)))
                                 (set_data pt (patch f))), true)
     | None => Ok (restore (params f) (patch f), false)
     end.
   Proof.
-    intros Hs. destruct (scope_params f Hs) as (Henc & [m Hm] & _).
+    intros Hs Hn. destruct (scope_params f Hs) as (Henc & [m Hm] & _).
     unfold decrypt, decrypt_with, recv_ct, recv_mic. rewrite csl_eq. rewrite (gen_auth_enc _ _ Henc).
-    destruct (extract (params f) (patch f)) as [ct mic]. rewrite Hm. reflexivity.
+    destruct (extract (params f) (patch f)) as [ct mic]. rewrite Hm, (ltb7 _ Hn), Henc. reflexivity.
   Qed.
 
   (** ** acceptance is exactly equality of the received MIC with the recomputed CCM* tag *)
-  Lemma accept_iff_tag key f : in_scope (f_lvl f) ->
+  Lemma accept_iff_tag key f : in_scope (f_lvl f) -> nonce_ok f ->
     status_of (decrypt E key f) = true <->
-    recv_mic f = ccm_tag E (sp_M (params f)) 2 key (gen_nonce (patch f)) (hdr_raw (patch f))
-                         (ccm_keystream_xor E 2 key (gen_nonce (patch f)) (recv_ct f)).
+    recv_mic f = ccm_tag E (sp_M (params f)) (Lf f) key (gen_nonce (patch f)) (hdr_raw (patch f))
+                         (ccm_keystream_xor E (Lf f) key (gen_nonce (patch f)) (recv_ct f)).
   Proof.
-    intros Hs. rewrite (decrypt_eq key f Hs).
-    destruct (ccm_decrypt E _ 2 key _ _ (recv_ct f) (recv_mic f)) as [pt|] eqn:Ed.
+    intros Hs Hn. rewrite (decrypt_eq key f Hs Hn).
+    destruct (ccm_decrypt E _ _ key _ _ (recv_ct f) (recv_mic f)) as [pt|] eqn:Ed.
     - apply ccm_decrypt_iff_tag in Ed. destruct Ed as [-> Ht]. cbn [status_of]. split; [intros _; exact Ht|reflexivity].
     - apply ccm_decrypt_none_iff in Ed. cbn [status_of]. split; [discriminate|intros H; contradiction].
   Qed.
 
   (** on acceptance the delivered data is the CTR decryption of the received ciphertext *)
-  Lemma accepted_payload key f r : in_scope (f_lvl f) ->
+  Lemma accepted_payload key f r : in_scope (f_lvl f) -> nonce_ok f ->
     decrypt E key f = Ok (r, true) ->
-    f_data r = ccm_keystream_xor E 2 key (gen_nonce (patch f)) (recv_ct f).
+    f_data r = ccm_keystream_xor E (Lf f) key (gen_nonce (patch f)) (recv_ct f).
   Proof.
-    intros Hs. rewrite (decrypt_eq key f Hs).
-    destruct (ccm_decrypt E _ 2 key _ _ (recv_ct f) (recv_mic f)) as [pt|] eqn:Ed; [|discriminate].
+    intros Hs Hn. rewrite (decrypt_eq key f Hs Hn).
+    destruct (ccm_decrypt E _ _ key _ _ (recv_ct f) (recv_mic f)) as [pt|] eqn:Ed; [|discriminate].
     apply ccm_decrypt_iff_tag in Ed. destruct Ed as [-> _].
     intros H. injection H as <-. unfold restore. destruct (sp_patched (params f)); reflexivity.
   Qed.
 
   (** never raises inside the scope of the property *)
-  Lemma decrypt_total key f : in_scope (f_lvl f) -> exists r b, decrypt E key f = Ok (r, b).
+  Lemma decrypt_total key f : in_scope (f_lvl f) -> nonce_ok f -> exists r b, decrypt E key f = Ok (r, b).
   Proof.
-    intros Hs. rewrite (decrypt_eq key f Hs). destruct (ccm_decrypt _ _ _ _ _ _ _ _); eauto.
+    intros Hs Hn. rewrite (decrypt_eq key f Hs Hn). destruct (ccm_decrypt _ _ _ _ _ _ _ _); eauto.
   Qed.
 
   (** any other MIC on the same frame is rejected (unconditionally) *)
-  Lemma mic_change_rejected key f f' : in_scope (f_lvl f) -> in_scope (f_lvl f') ->
+  Lemma mic_change_rejected key f f' : in_scope (f_lvl f) -> in_scope (f_lvl f') -> nonce_ok f ->
     sp_M (params f) = sp_M (params f') -> gen_nonce (patch f) = gen_nonce (patch f') ->
     hdr_raw (patch f) = hdr_raw (patch f') -> recv_ct f = recv_ct f' -> recv_mic f <> recv_mic f' ->
     status_of (decrypt E key f) = true -> status_of (decrypt E key f') = false.
   Proof.
-    intros Hs Hs' HM Hn Hh Hc Hm Ha.
-    apply (accept_iff_tag key f Hs) in Ha.
+    intros Hs Hs' Hok HM Hn Hh Hc Hm Ha.
+    assert (Hok' : nonce_ok f') by (unfold nonce_ok in *; rewrite <- Hn; exact Hok).
+    assert (HL : Lf f = Lf f') by (unfold Lf; fold (patch f) (patch f'); rewrite Hn; reflexivity).
+    apply (accept_iff_tag key f Hs Hok) in Ha.
     destruct (status_of (decrypt E key f')) eqn:Ea'; [|reflexivity].
-    apply (accept_iff_tag key f' Hs') in Ea'. rewrite <- HM, <- Hn, <- Hh, <- Hc, <- Ha in Ea'.
+    apply (accept_iff_tag key f' Hs' Hok') in Ea'. rewrite <- HM, <- HL, <- Hn, <- Hh, <- Hc, <- Ha in Ea'.
     symmetry in Ea'. contradiction.
   Qed.
 
@@ -171,33 +225,33 @@ Section Crypt.
     intros [H|[H|[H|H]]]; rewrite H; destruct f; cbn in *; subst; reflexivity.
   Qed.
 
-  Lemma tag_length f key n a p : in_scope (f_lvl f) ->
-    length (ccm_tag E (sp_M (params f)) 2 key n a p) = sp_M (params f).
-  Proof.
-    intros Hs. destruct (scope_params f Hs) as (_ & _ & Hle & _). apply ccm_tag_length; assumption.
-  Qed.
+  Lemma tag_length f key L n a p : (sp_M (params f) <= 16)%nat ->
+    length (ccm_tag E (sp_M (params f)) L key n a p) = sp_M (params f).
+  Proof. intros Hle. apply ccm_tag_length; assumption. Qed.
 
   (** decrypting the packet object returned by encrypt *)
-  Lemma decrypt_encrypt_obj key f : in_scope (f_lvl f) -> length (f_src f) = 8%nat ->
+  Lemma decrypt_encrypt_obj key f : in_scope (f_lvl f) -> f_ext f = true -> length (f_src f) = 8%nat ->
     exists g, encrypt E key f = Ok g /\
     exists m, decrypt E key g = Ok (set_mic m (set_data (plaintext_of f) f), true).
   Proof.
-    intros Hs Hsrc. rewrite (encrypt_eq key f Hs). eexists; split; [reflexivity|].
-    set (nonce := gen_nonce (patch f)). set (pt := enc_pt f).
+    intros Hs Hext Hsrc. destruct (nonce_ok_ext f Hext Hsrc) as [Hok HL].
+    destruct (nonce_ext f Hext Hsrc) as [Hnf Hnl].
+    rewrite (encrypt_eq key f Hs Hok). eexists; split; [reflexivity|]. rewrite HL.
+    set (nonce := gen_nonce (patch f)) in *. set (pt := enc_pt f).
     set (ct := ccm_keystream_xor E 2 key nonce pt).
     set (tag := ccm_tag E (sp_M (params f)) 2 key nonce (hdr_raw (patch f)) pt).
     destruct (scope_params f Hs) as (Henc & [m0 Hm] & Hle & Hpat & Hpatch & _).
     unfold decrypt, decrypt_with. rewrite (csl_restore f tag ct Hs).
     rewrite (gen_auth_enc _ _ Henc).
     assert (Hn : gen_nonce (set_mic tag (set_data ct (patch f))) = nonce).
-    { unfold nonce. rewrite !gen_nonce_src by (cbn; rewrite patch_src; exact Hsrc). reflexivity. }
+    { rewrite Hnf. rewrite gen_nonce_src by (cbn; rewrite ?patch_ext, ?patch_src; assumption). reflexivity. }
     rewrite Hn.
     assert (Hh : hdr_raw (set_mic tag (set_data ct (patch f))) = hdr_raw (patch f)) by reflexivity.
     rewrite Hh.
     assert (Hx : extract (params f) (set_mic tag (set_data ct (patch f))) = (ct, tag)).
     { unfold extract. rewrite Henc. unfold mic_absent_patched. cbn [f_mic set_mic].
-      unfold tag at 1. rewrite (tag_length f key _ _ _ Hs), Hm. reflexivity. }
-    rewrite Hx, Hm. rewrite <- Hm.
+      unfold tag at 1. rewrite (tag_length f key _ _ _ _ Hle), Hm. reflexivity. }
+    rewrite Hx, Hm. rewrite <- Hm. rewrite Hnl. cbn [Nat.ltb Nat.leb Nat.sub]. rewrite Henc. cbn [orb].
     pose proof (ccm_decrypt_encrypt_gen E E_length (sp_M (params f)) 2 key nonce (hdr_raw (patch f)) pt) as Hd.
     cbn [ccm_encrypt fst snd] in Hd. fold ct tag in Hd. rewrite Hd.
     eexists. rewrite (restore_result f tag ct _ pt Hs). unfold pt. rewrite (enc_pt_plaintext f Hs). reflexivity.
@@ -211,34 +265,35 @@ Section Crypt.
   Proof.
     intros Hs Ht. destruct (scope_params f Hs) as (_ & _ & _ & _ & _ & HM). rewrite HM in Ht.
     unfold redissect, params, patch, check_security_level, restore in *.
-    destruct Hs as [H|[H|[H|H]]]; rewrite H in *; destruct f as [pre res kt lvl fc src kseq data mic]; cbn in *; subst;
+    destruct Hs as [H|[H|[H|H]]]; rewrite H in *; destruct f as [pre res kt lvl fc ext src kseq data mic]; cbn in *; subst;
       cbn [N.eqb Pos.eqb level_M orb] in *; try reflexivity;
       rewrite app_length, Ht, Nat.add_sub, firstn_length_app, skipn_length_app; reflexivity.
   Qed.
 
   (** decrypting the bytes of the frame returned by encrypt (what a receiver does) *)
-  Lemma decrypt_encrypt_air key f : in_scope (f_lvl f) -> length (f_src f) = 8%nat ->
+  Lemma decrypt_encrypt_air key f : in_scope (f_lvl f) -> f_ext f = true -> length (f_src f) = 8%nat ->
     exists g, encrypt E key f = Ok g /\
     exists m, decrypt E key (redissect g) = Ok (set_mic m (set_data (plaintext_of f) f), true).
   Proof.
-    intros Hs Hsrc.
+    intros Hs Hext Hsrc.
     destruct (N.eqb_spec (f_lvl f) 0) as [H0|H0].
     - (* level 0 on the air: ciphertext and MIC both end up in [data] *)
-      rewrite (encrypt_eq key f Hs). eexists; split; [reflexivity|].
-      set (nonce := gen_nonce (patch f)). set (pt := enc_pt f).
+      destruct (nonce_ok_ext f Hext Hsrc) as [Hok HL].
+      destruct (nonce_ext f Hext Hsrc) as [Hnf Hnl].
+      rewrite (encrypt_eq key f Hs Hok). eexists; split; [reflexivity|]. rewrite HL.
+      set (nonce := gen_nonce (patch f)) in *. set (pt := enc_pt f).
       set (ct := ccm_keystream_xor E 2 key nonce pt).
       set (tag := ccm_tag E (sp_M (params f)) 2 key nonce (hdr_raw (patch f)) pt).
-      assert (Htl : length tag = sp_M (params f)) by (apply tag_length; exact Hs).
-      rewrite (redissect_encrypted f tag ct Hs Htl).
       destruct (scope_params f Hs) as (Henc & [m0 Hm] & Hle & Hpat & Hpatch & HM).
+      assert (Htl : length tag = sp_M (params f)) by (apply tag_length; exact Hle).
+      rewrite (redissect_encrypted f tag ct Hs Htl).
       rewrite H0 in Hpat, Hpatch, HM. cbn [N.eqb] in Hpat, Hpatch, HM.
       replace (f_lvl f =? 0) with true by (rewrite H0; reflexivity).
-      (* the re-dissected frame is [restore (set_mic [] (set_data (ct++tag) (patch f)))] *)
       assert (Hc : check_security_level (restore (params f) (set_mic [] (set_data (ct ++ tag) (patch f))))
                    = (set_mic [] (set_data (ct ++ tag) (patch f)), params f)) by (apply csl_restore; exact Hs).
       unfold decrypt, decrypt_with. rewrite Hc. rewrite (gen_auth_enc _ _ Henc).
       assert (Hn : gen_nonce (set_mic [] (set_data (ct ++ tag) (patch f))) = nonce).
-      { unfold nonce. rewrite !gen_nonce_src by (cbn; rewrite patch_src; exact Hsrc). reflexivity. }
+      { rewrite Hnf. rewrite gen_nonce_src by (cbn; rewrite ?patch_ext, ?patch_src; assumption). reflexivity. }
       rewrite Hn.
       assert (Hh : hdr_raw (set_mic [] (set_data (ct ++ tag) (patch f))) = hdr_raw (patch f)) by reflexivity.
       rewrite Hh.
@@ -246,16 +301,102 @@ Section Crypt.
       { unfold extract. rewrite Henc. unfold mic_absent_patched. cbn [f_mic f_data set_mic set_data length Nat.eqb].
         rewrite Hpat. cbn [andb]. rewrite <- Htl.
         rewrite py_drop_last_app, py_take_last_app by (rewrite Htl, HM; discriminate). reflexivity. }
-      rewrite Hx, Hm. rewrite <- Hm.
+      rewrite Hx, Hm. rewrite <- Hm. rewrite Hnl. cbn [Nat.ltb Nat.leb Nat.sub]. rewrite Henc. cbn [orb].
       pose proof (ccm_decrypt_encrypt_gen E E_length (sp_M (params f)) 2 key nonce (hdr_raw (patch f)) pt) as Hd.
       cbn [ccm_encrypt fst snd] in Hd. fold ct tag in Hd. rewrite Hd.
       eexists. rewrite (restore_result f [] (ct ++ tag) _ pt Hs). unfold pt. rewrite (enc_pt_plaintext f Hs). reflexivity.
     - (* explicit level: the dissection gives back data = ciphertext, mic = tag *)
-      destruct (decrypt_encrypt_obj key f Hs Hsrc) as (g & Hg & m & Hd).
+      destruct (decrypt_encrypt_obj key f Hs Hext Hsrc) as (g & Hg & m & Hd).
       exists g. split; [exact Hg|]. exists m.
-      rewrite (encrypt_eq key f Hs) in Hg. injection Hg as <-.
-      rewrite redissect_encrypted by (try exact Hs; apply tag_length; exact Hs).
+      destruct (nonce_ok_ext f Hext Hsrc) as [Hok _].
+      destruct (scope_params f Hs) as (_ & _ & Hle & _).
+      rewrite (encrypt_eq key f Hs Hok) in Hg. injection Hg as <-.
+      rewrite redissect_encrypted by (try exact Hs; apply tag_length; exact Hle).
       apply N.eqb_neq in H0. rewrite H0. exact Hd.
+  Qed.
+
+  (** ** EXTENSION: integrity-only levels 1-3 (after the repair of these levels) *)
+  Lemma csl_mic f : mic_scope (f_lvl f) -> check_security_level f = (f, params f).
+  Proof. intros Hs. rewrite csl_eq. destruct (mic_scope_params f Hs) as (_ & _ & _ & _ & -> & _). reflexivity. Qed.
+
+  Lemma encrypt_eq_mic key f : mic_scope (f_lvl f) -> (7 <= length (gen_nonce f))%nat ->
+    encrypt E key f =
+    Ok (set_mic (ccm_tag E (sp_M (params f)) (15 - length (gen_nonce f)) key (gen_nonce f) (hdr_raw f ++ f_data f) []) f).
+  Proof.
+    intros Hs Hn. destruct (mic_scope_params f Hs) as (Henc & [m Hm] & _ & Hpat & _).
+    unfold encrypt, encrypt_with. rewrite (csl_mic f Hs). rewrite (gen_auth_mic_only _ _ Henc).
+    rewrite Hm, (ltb7 _ Hn), Henc. cbn [orb]. unfold ccm_encrypt, restore. rewrite Hpat. reflexivity.
+  Qed.
+
+  (** the MIC decrypt compares: the last M bytes of the frame *)
+  Definition recv_mic_only (f : frame) : bytes := py_take_last (sp_M (params f)) (raw_base f).
+
+  Lemma decrypt_eq_mic key f : mic_scope (f_lvl f) -> (7 <= length (gen_nonce f))%nat ->
+    decrypt E key f =
+    if bytes_eqb (recv_mic_only f)
+                 (ccm_tag E (sp_M (params f)) (15 - length (gen_nonce f)) key (gen_nonce f) (hdr_raw f ++ f_data f) [])
+    then Ok (set_mic (generate_mic E gen_auth (params f) key (gen_nonce f) f) f, true)
+    else Ok (f, false).
+  Proof.
+    intros Hs Hn. destruct (mic_scope_params f Hs) as (Henc & [m Hm] & _ & Hpat & _).
+    unfold decrypt, decrypt_with, recv_mic_only. rewrite (csl_mic f Hs). rewrite (gen_auth_mic_only _ _ Henc).
+    unfold extract. rewrite Henc, Hm, (ltb7 _ Hn). cbn [orb]. unfold ccm_decrypt, restore. rewrite Hpat.
+    destruct (bytes_eqb _ _); reflexivity.
+  Qed.
+
+  (** accepted iff the trailing M bytes are the CCM* tag of header ‖ payload (empty message);
+      this is [ccmstar_unprotect false] of CcmStar.v *)
+  Lemma accept_iff_tag_mic key f : mic_scope (f_lvl f) -> (7 <= length (gen_nonce f))%nat ->
+    status_of (decrypt E key f) = true <->
+    recv_mic_only f = ccm_tag E (sp_M (params f)) (15 - length (gen_nonce f)) key (gen_nonce f) (hdr_raw f ++ f_data f) [].
+  Proof.
+    intros Hs Hn. rewrite (decrypt_eq_mic key f Hs Hn).
+    destruct (bytes_eqb _ _) eqn:Eb; cbn [status_of].
+    - apply bytes_eqb_eq in Eb. split; [intros _; exact Eb|reflexivity].
+    - split; [discriminate|]. intros H. rewrite H, bytes_eqb_refl in Eb. discriminate.
+  Qed.
+
+  Lemma accept_is_ccmstar_mic key f : mic_scope (f_lvl f) -> (7 <= length (gen_nonce f))%nat ->
+    status_of (decrypt E key f) = true <->
+    ccmstar_unprotect E false (sp_M (params f)) (15 - length (gen_nonce f)) key (gen_nonce f)
+                      (hdr_raw f) (f_data f) (recv_mic_only f) = Some (f_data f).
+  Proof.
+    intros Hs Hn. rewrite (accept_iff_tag_mic key f Hs Hn). rewrite ccmstar_mic_only_iff_tag. tauto.
+  Qed.
+
+  Lemma gen_nonce_set_mic t f : f_ext f = true -> length (f_src f) = 8%nat -> gen_nonce (set_mic t f) = gen_nonce f.
+  Proof. intros He Hs. rewrite !gen_nonce_src by assumption. reflexivity. Qed.
+
+  (** round trip at the integrity-only levels: the payload stays in clear, the frame is accepted,
+      as packet object and re-dissected from its bytes, and comes back with its payload *)
+  Lemma decrypt_encrypt_mic key f : mic_scope (f_lvl f) -> f_ext f = true -> length (f_src f) = 8%nat ->
+    exists g, encrypt E key f = Ok g /\ f_data g = f_data f
+      /\ (exists m, decrypt E key g = Ok (set_mic m f, true))
+      /\ redissect g = g.
+  Proof.
+    intros Hs Hext Hsrc.
+    assert (Hn : length (gen_nonce f) = 13%nat)
+      by (rewrite gen_nonce_src by assumption; apply nonce_of_length; exact Hsrc).
+    assert (Hok : (7 <= length (gen_nonce f))%nat) by lia.
+    rewrite (encrypt_eq_mic key f Hs Hok). eexists. split; [reflexivity|].
+    set (tag := ccm_tag E (sp_M (params f)) (15 - length (gen_nonce f)) key (gen_nonce f) (hdr_raw f ++ f_data f) []).
+    destruct (mic_scope_params f Hs) as (Henc & [m0 Hm] & Hle & Hpat & _ & HM).
+    assert (Htl : length tag = sp_M (params f)) by (apply tag_length; exact Hle).
+    assert (Hp : params (set_mic tag f) = params f) by (unfold params, check_security_level; cbn [f_lvl set_mic]; destruct (f_lvl f =? 0); reflexivity).
+    split; [reflexivity|]. split.
+    - assert (Hs' : mic_scope (f_lvl (set_mic tag f))) by exact Hs.
+      assert (Hn' : gen_nonce (set_mic tag f) = gen_nonce f) by (apply gen_nonce_set_mic; assumption).
+      rewrite (decrypt_eq_mic key (set_mic tag f) Hs') by (rewrite Hn'; exact Hok).
+      rewrite Hn', Hp.
+      assert (Hr : recv_mic_only (set_mic tag f) = tag).
+      { unfold recv_mic_only. rewrite Hp, raw_base_split. cbn [f_mic f_data set_mic].
+        change (hdr_raw (set_mic tag f)) with (hdr_raw f). rewrite app_assoc, <- Htl.
+        apply py_take_last_app. rewrite Htl, Hm. discriminate. }
+      rewrite Hr. change (hdr_raw (set_mic tag f)) with (hdr_raw f). change (f_data (set_mic tag f)) with (f_data f).
+      fold tag. rewrite bytes_eqb_refl. eexists. reflexivity.
+    - unfold redissect. cbn [f_lvl set_mic f_data f_mic]. rewrite <- HM, Hm, <- Hm.
+      rewrite <- Htl. rewrite py_drop_last_app, py_take_last_app by (rewrite Htl, Hm; discriminate).
+      destruct f; reflexivity.
   Qed.
 
   (** ** injective formatting: what the CBC-MAC is computed over determines the protected fields *)
@@ -280,19 +421,18 @@ Section Crypt.
       the two CCM* tags coincide (for the same key and different protected fields this is a
       CBC-MAC collision on different block sequences, by [formatting_injective]) *)
   Lemma forgery_is_tag_collision key key' f g f' :
-    in_scope (f_lvl f) -> encrypt E key f = Ok g ->
-    in_scope (f_lvl f') -> sp_M (params f') = sp_M (params f) -> recv_mic f' = f_mic g ->
+    in_scope (f_lvl f) -> nonce_ok f -> encrypt E key f = Ok g ->
+    in_scope (f_lvl f') -> nonce_ok f' -> sp_M (params f') = sp_M (params f) -> recv_mic f' = f_mic g ->
     status_of (decrypt E key' f') = true ->
-    ccm_tag E (sp_M (params f)) 2 key' (gen_nonce (patch f')) (hdr_raw (patch f'))
-            (ccm_keystream_xor E 2 key' (gen_nonce (patch f')) (recv_ct f'))
-    = ccm_tag E (sp_M (params f)) 2 key (gen_nonce (patch f)) (hdr_raw (patch f)) (plaintext_of f).
+    ccm_tag E (sp_M (params f)) (Lf f') key' (gen_nonce (patch f')) (hdr_raw (patch f'))
+            (ccm_keystream_xor E (Lf f') key' (gen_nonce (patch f')) (recv_ct f'))
+    = ccm_tag E (sp_M (params f)) (Lf f) key (gen_nonce (patch f)) (hdr_raw (patch f)) (plaintext_of f).
   Proof.
-    intros Hs Hg Hs' HM Hmic Ha.
-    apply (accept_iff_tag key' f' Hs') in Ha. rewrite HM in Ha. rewrite <- Ha, Hmic.
-    rewrite (encrypt_eq key f Hs) in Hg. injection Hg as <-.
+    intros Hs Hok Hg Hs' Hok' HM Hmic Ha.
+    apply (accept_iff_tag key' f' Hs' Hok') in Ha. rewrite HM in Ha. rewrite <- Ha, Hmic.
+    rewrite (encrypt_eq key f Hs Hok) in Hg. injection Hg as <-.
     rewrite (enc_pt_plaintext f Hs). unfold restore. destruct (sp_patched (params f)); reflexivity.
   Qed.
-
 End Crypt.
 
 Lemma le32_inj n n' : n < 4294967296 -> n' < 4294967296 -> le32 n = le32 n' -> n = n'.
@@ -300,8 +440,8 @@ Proof. unfold le32. intros H H' E. injection E as E0 E1 E2 E3. lia. Qed.
 
 Lemma ctrl_byte_inj f f' :
   f_lvl f < 8 -> f_kt f < 4 -> f_res f < 4 -> f_lvl f' < 8 -> f_kt f' < 4 -> f_res f' < 4 ->
-  ctrl_byte f = ctrl_byte f' -> f_lvl f = f_lvl f' /\ f_kt f = f_kt f' /\ f_res f = f_res f'.
-Proof. unfold ctrl_byte. lia. Qed.
+  ctrl_byte f = ctrl_byte f' -> f_lvl f = f_lvl f' /\ f_kt f = f_kt f' /\ f_res f = f_res f' /\ f_ext f = f_ext f'.
+Proof. unfold ctrl_byte. destruct (f_ext f), (f_ext f'); intros; repeat split; try reflexivity; lia. Qed.
 
 (** * Network layer *)
 Lemma bytes_eqb_false a b : bytes_eqb a b = false <-> a <> b.
@@ -368,7 +508,7 @@ Section Nwk.
   Lemma nwk_decrypt_ok st f f' st' : nwk_decrypt E st f = DecOk f' st' ->
     exists k m, kseq_of f = Some k /\ select k (n_mats st) = Some m /\ stale st m f = false
                 /\ decrypt E (m_key m) f = Ok (f', true)
-                /\ st' = with_mats st (store k (f_src f) (f_fc f + 1) (n_mats st)).
+                /\ st' = with_mats st (store k (sender_of f) (f_fc f + 1) (n_mats st)).
   Proof.
     unfold nwk_decrypt. destruct (n_level st =? 0); [discriminate|].
     destruct (kseq_of f) as [k|]; [|discriminate].
@@ -475,8 +615,8 @@ Section NwkFresh.
   Lemma nwk_step_stored st p o st1 : nwk_step E st p = (o, st1) ->
     match p, o with
     | Secured f, UpSecured _ _ =>
-        (n_all_fresh st = true -> forall c0, stored st (f_kseq f) (f_src f) = Some c0 -> c0 <= f_fc f)
-        /\ forall k' a', stored st1 k' a' = bump (stored st) (f_kseq f) (f_src f) (f_fc f) k' a'
+        (n_all_fresh st = true -> forall c0, stored st (f_kseq f) (sender_of f) = Some c0 -> c0 <= f_fc f)
+        /\ forall k' a', stored st1 k' a' = bump (stored st) (f_kseq f) (sender_of f) (f_fc f) k' a'
     | _, _ => st1 = st
     end.
   Proof.
@@ -539,14 +679,14 @@ Section Final.
   Variable E : bytes -> bytes -> bytes.
   Hypothesis E_length : forall k b, length (E k b) = 16%nat.
 
-  Lemma decrypt_encrypt key f : in_scope (f_lvl f) -> length (f_src f) = 8%nat ->
+  Lemma decrypt_encrypt key f : in_scope (f_lvl f) -> f_ext f = true -> length (f_src f) = 8%nat ->
     exists g, encrypt E key f = Ok g
       /\ (exists m, decrypt E key g = Ok (set_mic m (set_data (plaintext_of f) f), true))
       /\ (exists m, decrypt E key (redissect g) = Ok (set_mic m (set_data (plaintext_of f) f), true)).
   Proof.
-    intros Hs Hsrc.
-    destruct (decrypt_encrypt_obj E E_length key f Hs Hsrc) as (g & Hg & Ho).
-    destruct (decrypt_encrypt_air E E_length key f Hs Hsrc) as (g' & Hg' & Ha).
+    intros Hs Hext Hsrc.
+    destruct (decrypt_encrypt_obj E E_length key f Hs Hext Hsrc) as (g & Hg & Ho).
+    destruct (decrypt_encrypt_air E E_length key f Hs Hext Hsrc) as (g' & Hg' & Ha).
     rewrite Hg in Hg'. injection Hg' as <-.
     exists g. repeat split; assumption.
   Qed.
@@ -555,56 +695,137 @@ Section Final.
   Lemma nwk_up_has_valid_tag st ps :
     Forall2 (fun p o => forall svc f', o = UpSecured svc f' ->
                exists f key, p = Secured f /\ In (f_kseq f, key) (keys_of st) /\
-                 (in_scope (f_lvl f) ->
-                  recv_mic f = ccm_tag E (sp_M (params f)) 2 key (gen_nonce (patch f)) (hdr_raw (patch f))
-                                       (ccm_keystream_xor E 2 key (gen_nonce (patch f)) (recv_ct f))
-                  /\ f_data f' = ccm_keystream_xor E 2 key (gen_nonce (patch f)) (recv_ct f)))
+                 (in_scope (f_lvl f) -> nonce_ok f ->
+                  recv_mic f = ccm_tag E (sp_M (params f)) (Lf f) key (gen_nonce (patch f)) (hdr_raw (patch f))
+                                       (ccm_keystream_xor E (Lf f) key (gen_nonce (patch f)) (recv_ct f))
+                  /\ f_data f' = ccm_keystream_xor E (Lf f) key (gen_nonce (patch f)) (recv_ct f)))
             ps (fst (nwk_run E st ps)).
   Proof.
     eapply Forall2_imp; [|apply no_unauthenticated_up].
     intros p o Ha svc f' ->. cbn [authentic_up] in Ha.
     destruct Ha as (f & key & -> & _ & Hin & Hd & _).
     exists f, key. repeat split; try assumption.
-    - apply (accept_iff_tag E key f H). rewrite Hd. reflexivity.
-    - apply (accepted_payload E key f f' H Hd).
+    - apply (accept_iff_tag E key f H H0). rewrite Hd. reflexivity.
+    - apply (accepted_payload E key f f' H H0 Hd).
   Qed.
+
+  (** ** EXTENSION: level 4 (encryption only).  The code does not implement it: AES.new(mac_len=0)
+      raises ValueError in encrypt and in decrypt, for every frame and key.  (The CCM* level-4
+      transform itself and its lack of authentication are in CcmStar.v.) *)
+  Lemma level4_unsupported key f : f_lvl f = 4 ->
+    encrypt E key f = Raise "ValueError"%string /\ decrypt E key f = Raise "ValueError"%string.
+  Proof.
+    intros H. unfold encrypt, decrypt, encrypt_with, decrypt_with, check_security_level.
+    rewrite H. cbn [N.eqb Pos.eqb level_int negb andb sp_M]. split; [reflexivity|].
+    destruct (extract _ _). reflexivity.
+  Qed.
+
+  (** ** APS receive path: stateless, hence no freshness *)
+  Lemma aps_try_authentic cands f f' : aps_try E cands f = ADecOk f' ->
+    exists kp inp, In kp cands /\ aps_input (f_kt f) = Some inp
+                   /\ decrypt E (aps_key E (kp_key kp) inp) f = Ok (f', true).
+  Proof.
+    induction cands as [|kp r IH]; cbn [aps_try]; [discriminate|].
+    destruct (aps_input (f_kt f)) as [inp|] eqn:Ei; [|discriminate].
+    destruct (decrypt E (aps_key E (kp_key kp) inp) f) as [[g b]|cls] eqn:Ed; [|discriminate].
+    destruct b.
+    - intros H. injection H as <-. exists kp, inp. repeat split; [left; reflexivity|exact Ed].
+    - intros H. destruct (IH H) as (kp' & inp' & Hin & Hi & Hd). exists kp', inp'. repeat split; [right; exact Hin|exact Hi|exact Hd].
+  Qed.
+
+  Lemma aps_select_sub short kps kp : In kp (aps_select short kps) -> In kp kps.
+  Proof.
+    unfold aps_select. destruct (filter _ kps) eqn:Ef.
+    - intros H. apply filter_In in H. tauto.
+    - intros H. rewrite <- Ef in H. apply filter_In in H. tauto.
+  Qed.
+
+  Lemma aps_up_authentic st p svc f' : aps_step E st p = AUpSecured svc f' ->
+    exists f kp inp, p = ApsSecured f /\ In kp (a_kps st) /\ aps_input (f_kt f) = Some inp
+                     /\ decrypt E (aps_key E (kp_key kp) inp) f = Ok (f', true).
+  Proof.
+    destruct p as [f|ft raw]; cbn [aps_step].
+    - destruct (aps_decrypt E st f) as [g| |cls] eqn:Ed; try discriminate.
+      unfold aps_route_secured. intros H.
+      assert (g = f') as -> by (destruct (frametype_of g =? 0); [|destruct (frametype_of g =? 1)]; congruence).
+      unfold aps_decrypt in Ed. apply aps_try_authentic in Ed. destruct Ed as (kp & inp & Hin & Hi & Hd).
+      exists f, kp, inp. repeat split; try assumption. eapply aps_select_sub; exact Hin.
+    - destruct (ft =? 0); [discriminate|]. destruct (ft =? 1); discriminate.
+  Qed.
+
+  (** OBSERVATION (not a finding: the property's freshness sentence is about the network layer):
+      the outcome of an NSDU does not depend on what was received before, so an accepted frame
+      is accepted again, with the same result, every time it is replayed *)
+  Lemma aps_no_freshness st before f o :
+    aps_step E st (ApsSecured f) = o ->
+    aps_run E st (before ++ [ApsSecured f; ApsSecured f]) = aps_run E st before ++ [o; o].
+  Proof. intros <-. unfold aps_run. rewrite map_app. reflexivity. Qed.
 End Final.
 
-(** * the defect that was repaired: with the authenticated data derived by
-      raw.replace(payload, b"").replace(mic, b"") a frame the code has just encrypted is
-      rejected by its own decryption (key and header of the first frame of
-      tests/domain/zigbee/test_zigbee_crypto.py, explicit level 5, payload 00) *)
+(** * the defects that were repaired *)
 Definition witness_key : bytes :=
   [0xad;0x8e;0xbb;0xc4;0xf9;0x6a;0xe7;0x00;0x05;0x06;0xd3;0xfc;0xd1;0x62;0x7f;0xb8].
-Definition witness_frame (lvl : N) (payload : bytes) : frame :=
-  mkFrame [0x48;0x02;0x00;0x00;0x8a;0x5c;0x1e;0x5d] 0 1 lvl 0xe1
+Definition witness_frame (lvl : N) (ext : bool) (payload : bytes) : frame :=
+  mkFrame [0x48;0x02;0x00;0x00;0x8a;0x5c;0x1e;0x5d] 0 1 lvl 0xe1 ext
           [0x01;0x3c;0xe8;0x01;0x00;0x8d;0x15;0x00] 1 payload [].
 
+(** original code: authenticated data derived by raw.replace(payload, b"").replace(mic, b"")
+    (key and header of the first frame of tests/domain/zigbee/test_zigbee_crypto.py, explicit
+    level 5, payload 00) *)
 Lemma pre_repair_round_trip_refuted :
-  exists key f, f_lvl f = 5 /\ length (f_src f) = 8%nat /\
+  exists key f, f_lvl f = 5 /\ f_ext f = true /\ length (f_src f) = 8%nat /\
     exists g, encrypt_old aes128_enc key f = Ok g /\
               status_of (decrypt_old aes128_enc key (redissect g)) = false.
 Proof.
-  exists witness_key, (witness_frame 5 [0x00]). split; [reflexivity|]. split; [reflexivity|].
+  exists witness_key, (witness_frame 5 true [0x00]). repeat (split; [reflexivity|]).
   eexists. split; [vm_compute; reflexivity|]. vm_compute. reflexivity.
 Qed.
 
-(** non-vacuity: the same witness round-trips with the repaired code, a one-bit change of the
-    header is rejected, and a replayed frame is dropped by the network layer *)
+(** code before the repair of the integrity-only levels: at level 1 the payload 11 left
+    encrypt as ciphertext and the frame was rejected by decrypt *)
+Lemma pre_repair_mic_only_refuted :
+  exists key f, f_lvl f = 1 /\ f_ext f = true /\ length (f_src f) = 8%nat /\
+    exists g, encrypt_v1 aes128_enc key f = Ok g /\ f_data g <> f_data f /\
+              status_of (decrypt_v1 aes128_enc key (redissect g)) = false.
+Proof.
+  exists witness_key, (witness_frame 1 true [0x11]). repeat (split; [reflexivity|]).
+  eexists. split; [vm_compute; reflexivity|]. split; [vm_compute; discriminate|]. vm_compute. reflexivity.
+Qed.
+
+(** KNOWN FINDING no-extended-nonce-source-from-payload: without the extended-nonce flag the
+    nonce takes the bytes after the frame counter (key sequence number, payload, MIC) as the
+    source; they differ between the encrypt side (plaintext) and the decrypt side
+    (ciphertext), so the frame just encrypted is rejected *)
+Lemma no_extended_nonce_round_trip_refuted :
+  exists key f, f_lvl f = 5 /\ f_ext f = false /\
+    exists g, encrypt aes128_enc key f = Ok g /\
+              status_of (decrypt aes128_enc key (redissect g)) = false.
+Proof.
+  exists witness_key, (witness_frame 5 false [0x00;0x11;0x22;0x33;0x44;0x55;0x66;0x77]). repeat (split; [reflexivity|]).
+  eexists. split; [vm_compute; reflexivity|]. vm_compute. reflexivity.
+Qed.
+
+(** non-vacuity: the same witness round-trips with the repaired code (levels 5 and 1), a
+    one-bit change of the header is rejected, and a replayed frame is dropped by the network
+    layer *)
 Definition nv_state : nwk := mkNwk 5 true false [mkMat 1 witness_key []].
 Lemma nonvacuous :
-  in_scope 5 /\ length (f_src (witness_frame 5 [0x00])) = 8%nat /\
-  exists g, encrypt aes128_enc witness_key (witness_frame 5 [0x00]) = Ok g /\
+  in_scope 5 /\ mic_scope 1 /\ length (f_src (witness_frame 5 true [0x00])) = 8%nat /\
+  (exists g1, encrypt aes128_enc witness_key (witness_frame 1 true [0x11]) = Ok g1 /\ f_data g1 = [0x11] /\
+     status_of (decrypt aes128_enc witness_key (redissect g1)) = true) /\
+  exists g, encrypt aes128_enc witness_key (witness_frame 5 true [0x00]) = Ok g /\
     status_of (decrypt aes128_enc witness_key (redissect g)) = true /\
-    status_of (decrypt aes128_enc witness_key (set_lvl 5 (mkFrame [0x48;0x02;0x00;0x00;0x8a;0x5c;0x1e;0x5c] 0 1 5 0xe1
+    status_of (decrypt aes128_enc witness_key (set_lvl 5 (mkFrame [0x48;0x02;0x00;0x00;0x8a;0x5c;0x1e;0x5c] 0 1 5 0xe1 true
                  (f_src g) 1 (f_data g) (f_mic g)))) = false /\
     map (fun o => match o with UpSecured _ _ => true | _ => false end)
         (fst (nwk_run aes128_enc nv_state [Secured g; Secured g])) = [true; false] /\
     accepted aes128_enc nv_state [Secured g; Secured g] = [(1, f_src g, 0xe1)].
 Proof.
-  split; [right; left; reflexivity|]. split; [reflexivity|].
-  eexists. split; [vm_compute; reflexivity|].
-  repeat split; vm_compute; reflexivity.
+  split; [right; left; reflexivity|]. split; [left; reflexivity|]. split; [reflexivity|].
+  split.
+  - eexists. split; [vm_compute; reflexivity|]. split; vm_compute; reflexivity.
+  - eexists. split; [vm_compute; reflexivity|].
+    repeat split; vm_compute; reflexivity.
 Qed.
 
 (** * known finding: the secured APS data request raises *)
